@@ -431,8 +431,12 @@ func (seq Sequence) Truncate(width int, resolution time.Duration, asOf time.Time
 			if bytesToRemove+Width64bits >= len(seq) {
 				return nil
 			}
-			result = result[bytesToRemove:]
-			result.SetUntil(until)
+			// Copy rather than reslicing, since setting until would otherwise
+			// overwrite data in the original sequence.
+			truncated := make(Sequence, len(seq)-bytesToRemove)
+			copy(truncated[Width64bits:], seq[Width64bits+bytesToRemove:])
+			truncated.SetUntil(until)
+			result = truncated
 		}
 	}
 
